@@ -200,8 +200,3 @@ Qed.
 
 (* the unlinking is one cell store: every block other than the predecessor (or the head) and the blocks of the
    removed entry is exactly as before *)
-Lemma cell_set_other h b i v h' c : cell_set h b i v = Some h' -> b <> c -> nth_error h' c = nth_error h c.
-Proof.
-  unfold cell_set. destruct (nth_error h b) as [[blk|]|]; try discriminate. destruct (0 <=? i); [|discriminate].
-  destruct (set_nth_v (Z.to_nat i) v blk); [|discriminate]. intros E Hn. apply (set_nth_v_other h b c _ h' E Hn).
-Qed.
